@@ -225,6 +225,8 @@ func main() {
 	pkg := fs.String("pkg", "", "package (run)")
 	fn := fs.String("func", "", "harness function (run)")
 	argsS := fs.String("args", "", "comma separated integer arguments (run)")
+	fuelF := fs.Int("fuel", 0, "loop fuel for the job (run)")
+	maxInstrF := fs.Int64("maxinstrs", 0, "instruction bound per path for the job (run)")
 	prop := fs.String("prop", "", "property id (check)")
 	tier := fs.String("tier", "quick", "quick|thorough")
 	noReplay := fs.Bool("noreplay", false, "skip native replay")
@@ -240,6 +242,8 @@ func main() {
 		}
 		fmt.Printf("load+init: %v\n", time.Since(t0).Round(time.Millisecond))
 		spec := JobSpec{Pkg: *pkg, Func: *fn}
+		spec.Opts.LoopFuel = *fuelF
+		spec.Opts.MaxInstrs = int(*maxInstrF)
 		if *argsS != "" {
 			for _, a := range strings.Split(*argsS, ",") {
 				var v int64
